@@ -84,7 +84,8 @@ static void check_mapped_regions_stable(void)
     for (int r = 0; r < nrd; ++r) {
         if (!orc[r].mapped || !orc[r].resolved) continue;
         for (size_t j = 0; j < orc[r].mlen; ++j)
-            if (ch.data[orc[r].mbeg + j] != stream[orc[r].idx + j]) {
+            if (orc[r].mbeg + j >= ch.capacity || orc[r].idx + j >= total ||
+                ch.data[orc[r].mbeg + j] != stream[orc[r].idx + j]) {
                 oracle_fail("mapped-region-changed", r, (long)(orc[r].mbeg + j), (long)(orc[r].idx + j));
                 break;
             }
